@@ -335,12 +335,12 @@ static void gen_values (void *buf, int T, long long n, const char *cls, long lon
 		{	/* noise with the low 'param' bits zero (lossless through narrower PCM) */
 			uint64_t r = rng () ;
 			v = bits == 16 ? (short) (r >> 20) : (int) (r >> 16) ;
-			v = (v >> param) << param ;
+			v = (v >> param) * ((int64_t) 1 << param) ;
 			fv = (double) v / (bits == 16 ? 32768.0 : 2147483648.0) ;
 			}
 		else if (!strcmp (cls, "tok"))
 		{	/* distinct small tokens placed in the top bits : param = shift */
-			v = ((seed + i) % 120 + 1) ; v = v << param ; if (bits == 16) v = (short) v ; else v = (int) v ;
+			v = ((seed + i) % 120 + 1) ; v = v * ((int64_t) 1 << param) ; if (bits == 16) v = (short) v ; else v = (int) v ;
 			fv = (double) ((seed + i) % 120 + 1) / 128.0 ;
 			}
 		else if (!strcmp (cls, "grid"))
@@ -518,6 +518,16 @@ static void ev_info (const SF_INFO *in)
 	ev_int ("frbig", in->frames > 2147483647LL || in->frames < 0 ? 1 : 0) ;
 }
 
+/* files of the path route stay on disk for the whole scenario (SD2 keeps its resource fork next to the data file) */
+static void path_name (int fid, char *out, size_t n, const char *prefix)
+{	snprintf (out, n, "%s/../%ssfd_%d_%d.dat", tmpdir, prefix, (int) getpid (), fid) ;
+}
+static void path_remove (int fid)
+{	char p [300] ;
+	path_name (fid, p, sizeof (p), "") ; unlink (p) ;
+	path_name (fid, p, sizeof (p), "._") ; unlink (p) ;
+}
+
 static void do_open (void)
 {	/* open h route mode fid fmt ch rate [frames] */
 	int h = (int) tokll (1) ; long long emb ; int route = parse_route (toks [2], &emb) ;
@@ -551,8 +561,8 @@ static void do_open (void)
 			} break ;
 		case R_PATH :
 		{	snprintf (H->path, sizeof (H->path), "%s/../sfd_%d_%d.dat", tmpdir, (int) getpid (), fid) ;
-			if (mode != SFM_WRITE) { int fd = open (H->path, O_CREAT | O_TRUNC | O_WRONLY, 0600) ; write_all (fd, mf->data, mf->len) ; close (fd) ; }
-			else unlink (H->path) ;
+			if (mode == SFM_WRITE) path_remove (fid) ;
+			else if (access (H->path, F_OK) != 0) { int fd = open (H->path, O_CREAT | O_TRUNC | O_WRONLY, 0600) ; write_all (fd, mf->data, mf->len) ; close (fd) ; }
 			H->sf = sf_open (H->path, mode, &H->info) ;
 			} break ;
 		case R_PIPE :
@@ -591,7 +601,6 @@ static void do_open (void)
 		if (route == R_FDK && H->fd >= 0) close (H->fd) ;
 		if (H->dupfd >= 0) { close (H->dupfd) ; H->dupfd = -1 ; }
 		if (H->th_on) { if (route == R_PIPE && mode == SFM_READ) { /* feeder may block : drain */ unsigned char b [4096] ; int f2 = H->pfd [0] ; if (fcntl (f2, F_GETFD) != -1) { while (read (f2, b, sizeof (b)) > 0) ; close (f2) ; } } pthread_join (H->th, NULL) ; H->th_on = 0 ; }
-		if (route == R_PATH) unlink (H->path) ;
 		}
 	ev_flen (h) ;
 	ev_end () ;
@@ -615,7 +624,6 @@ static void do_close (void)
 		}
 	else if (H->route == R_PATH)
 	{	if (H->mode != SFM_READ) { int fd = open (H->path, O_RDONLY) ; if (fd >= 0) { slurp_fd (fd, mf, 0, 0) ; close (fd) ; } }
-		unlink (H->path) ;
 		}
 	else if (H->route == R_PIPE)
 	{	fdclosed = (fcntl (H->fd, F_GETFD) == -1) ;
@@ -714,6 +722,7 @@ static void do_file (void)
 {	/* file fid new | copy src | hex HEX | load path [off len] | trunc n | setbyte off val */
 	int fid = (int) tokll (1) ; MEMFILE *mf = &files [fid] ; mf->used = 1 ;
 	const char *k = toks [2] ;
+	if (strcmp (k, "save")) path_remove (fid) ;
 	if (!strcmp (k, "new")) mf->len = 0 ;
 	else if (!strcmp (k, "copy"))
 	{	MEMFILE *src = &files [tokll (3)] ; mf_reserve (mf, src->len + 1) ; if (src->len) memcpy (mf->data, src->data, src->len) ; mf->len = src->len ; }
@@ -771,7 +780,8 @@ static void end_scenario (void)
 	{	left++ ; char line [64] ; snprintf (line, sizeof (line), "close %d", h) ; split (line) ; do_close () ; }
 	fault_at = 0 ;
 	for (int f = 0 ; f < MAXFILES ; f++) if (files [f].used)
-	{	dfree (files [f].data) ; memset (&files [f], 0, sizeof (MEMFILE)) ; }
+	{	path_remove (f) ;
+		dfree (files [f].data) ; memset (&files [f], 0, sizeof (MEMFILE)) ; }
 	ev_begin ("end", -1) ; ev_int ("left", left) ; ev_ledger () ; ev_int ("io", io_count) ; ev_int ("fhits", fault_hits) ; ev_end () ;
 	fflush (evf) ;
 }
@@ -786,6 +796,9 @@ int main (int argc, char **argv)
 	FILE *sf = fopen (argv [1], "r") ; if (!sf) { perror (argv [1]) ; return 2 ; }
 	evf = fopen (argv [2], from > 0 ? "a" : "w") ; if (!evf) { perror (argv [2]) ; return 2 ; }
 	setvbuf (evf, NULL, _IOFBF, 1 << 20) ;
+	/* the library prints diagnostics with printf in a few places : give stdio static buffers so that its lazily
+	** allocated buffers do not show up in the heap ledger */
+	{	static char ob [8192], eb [8192] ; setvbuf (stdout, ob, _IOFBF, sizeof (ob)) ; setvbuf (stderr, eb, _IOLBF, sizeof (eb)) ; }
 	signal (SIGALRM, on_alarm) ; signal (SIGPIPE, SIG_IGN) ;
 #ifdef HAVE_ASAN
 	__sanitizer_set_death_callback (die_flush) ;
@@ -797,7 +810,10 @@ int main (int argc, char **argv)
 	{	char top [256] ; snprintf (top, sizeof (top), "/tmp/sfdrive_%d", (int) getpid ()) ; mkdir (top, 0700) ; mkdir (tmpdir, 0700) ; }
 	setenv ("TMPDIR", tmpdir, 1) ;
 	/* warm up lazily allocated libc state so that the ledger baseline is stable */
-	{ DIR *d = opendir ("/proc/self/fd") ; if (d) closedir (d) ; sf_error (NULL) ; sf_strerror (NULL) ; }
+	{	DIR *d = opendir ("/proc/self/fd") ; if (d) closedir (d) ; sf_error (NULL) ; sf_strerror (NULL) ;
+		time_t t0 = 0 ; struct tm tmv ; char tb [64] ; tzset () ; gmtime_r (&t0, &tmv) ; localtime_r (&t0, &tmv) ; strftime (tb, sizeof (tb), "%c", &tmv) ;
+		snprintf (tb, sizeof (tb), "%f %g", 1.5, 2.5e-7) ; (void) strtod ("1.5", NULL) ;
+		}
 	size_t cap = 1 << 24 ; char *line = malloc (cap) ; int idx = -1 ; int skipping = 0 ;
 	while (fgets (line, (int) cap, sf))
 	{	if (line [0] == '#' || line [0] == '\n') continue ;
